@@ -196,7 +196,8 @@ CHECKS = {
         'note': 'Not a proof of the property. Supporting obligations (Verus, unit X_tagtrain): TagTrainer::add_example stores one example per token, '
                 'with the token\'s tag row and exactly the n-grams 1..N characters longer than the token that contain it, lie inside the sentence and '
                 'end 0..window characters after its end, with that distance as relative position (the range the tag scorers can see; repaired under '
-                'C11, cd9204e). The equality of stored scores with the learned classifier is not checked (coefficients are not observable).',
+                'C11, cd9204e). The equality of the stored tag scores with the learned quantised classifier applied to the '
+                'reference tag features IS checked by the sweep through the verification hook VERIF_TAG_LEARNED (bounded).',
         'technique': 'bounded sweep of the real trainer against a reference written from the statement (labelled stand-in, not proof)',
     },
     'C17': {
@@ -309,7 +310,8 @@ def main():
 
 
 HOOK_COMMITS = ['8f78040 verif hook (cfg vaporetto_verif): Trainer::verif_examples exposes the decoded training examples (used by the c10 sweep only; Verus needs no hook)',
-                '8d92f65 verif hook (cfg vaporetto_verif): Trainer::train records the learned quantised weights by feature name in VERIF_LEARNED (used by the c09 sweep only)']
+                '8d92f65 verif hook (cfg vaporetto_verif): Trainer::train records the learned quantised weights by feature name in VERIF_LEARNED (used by the c09 sweep only)',
+                '87b66b3 verif hook (cfg vaporetto_verif): TagTrainer records the learned quantised tag classifier weights in VERIF_TAG_LEARNED (used by the c12 sweep only)']
 
 if __name__ == '__main__':
     main()
